@@ -89,6 +89,7 @@ type Op struct {
 	Strict   bool            `json:"strict"`
 	Params   SMap            `json:"params"`
 	Chain    []ChainEl       `json:"chain"`
+	Key2     string          `json:"key2"`
 	Verb     string          `json:"verb"`   // handle op: call the shorthand method (get|post|delete|put|patch|any) instead of Handle
 	Parent   string          `json:"parent"` // facade op: make the object from this stored object (last chain element only)
 	Fid      string          `json:"fid"`    // facade object (created by an earlier "facade" op) this call goes through
@@ -530,6 +531,9 @@ func (e *env) newRouter(c *Cfg) *mux.Router[*H] {
 	bopt := func(n types.Node) *H { return &H{kind: "opt", node: n} }
 	opts := c.options(e)
 	var r *mux.Router[*H]
+	if c.Cors.On { // the same option values applied to ANOTHER router first ...
+		mux.NewRouter[*H](c.name()+"-pre", e.call, &H{kind: "404"}, b405, bopt, opts...)
+	}
 	if c.viaGroup() {
 		decoys := []mux.Option{}
 		if c.Domain != "" {
@@ -543,7 +547,7 @@ func (e *env) newRouter(c *Cfg) *mux.Router[*H] {
 	} else {
 		r = mux.NewRouter[*H](c.name(), e.call, &H{kind: "404"}, b405, bopt, opts...)
 	}
-	if c.Cors.On { // a second router built from the SAME option values must leave the first one alone
+	if c.Cors.On { // ... and to a third one afterwards: the router under test must be unaffected by either
 		mux.NewRouter[*H](c.name()+"-twin", e.call, &H{kind: "404"}, b405, bopt, opts...)
 	}
 	return r
